@@ -311,6 +311,12 @@ func (s *Sim) Now() time.Duration { return time.Since(s.start) }
 
 func (s *Sim) loop() {
 	horizonHits := 0
+	var spinAt time.Time
+	spin := map[*Task]int{}
+	spinLimit := 300000
+	if l := s.cfg.MaxSteps * 3 / 4; l < spinLimit {
+		spinLimit = l
+	}
 	for {
 		synctest.Wait()
 		if s.fail != nil || s.inconcl != "" {
@@ -407,6 +413,22 @@ func (s *Sim) loop() {
 		horizonHits = 0
 		t := s.pick(R)
 		s.steps++
+		// livelock detector: one task executing instrumented statements step
+		// after step while the simulated clock stands still (whether or not
+		// other tasks get a turn in between)
+		if !now.Equal(spinAt) {
+			spinAt = now
+			for k := range spin {
+				delete(spin, k)
+			}
+		}
+		if strings.Contains(t.site, ".go:") {
+			spin[t]++
+			if spin[t] >= spinLimit {
+				s.stall(fmt.Sprintf("livelock: task %s has executed %d statements of the library (now at %s) without the simulated clock moving: it is spinning", t.ID, spin[t], t.site))
+				return
+			}
+		}
 		s.hashStep(t)
 		s.resume(t)
 	}
